@@ -68,6 +68,9 @@ Proof.
   destruct l as [|h t]; [destruct i; reflexivity|]. apply IH.
 Qed.
 
+Lemma nth_repeat_lt {A} (x d : A) n i : i < n -> nth i (repeat x n) d = x.
+Proof. revert i; induction n as [|n IH]; intros [|i] H; cbn; auto; try lia. apply IH. lia. Qed.
+
 Lemma prod_perm l l' : Permutation l l' -> prod l = prod l'.
 Proof. induction 1; cbn; lia. Qed.
 
